@@ -437,8 +437,11 @@ func captureDefaults() {
 func resetGlobals() {
 	dummy := newDir("dummy")
 	repl.SetConfigDir(dummy)
+	now := readVals()
 	for _, sp := range watched {
-		repl.Scope().Set(slip.Symbol(sp.name), defaultObjs[sp.name])
+		if now[sp.name] != defaultVals[sp.name] {
+			repl.Scope().Set(slip.Symbol(sp.name), defaultObjs[sp.name])
+		}
 	}
 	repl.ZeroMods()
 	if d := diffVals(readVals(), defaultVals); d != "" {
@@ -570,10 +573,16 @@ func runSettings(c SCase) *h.Result {
 			post := cloneVals(m)
 			post[op.Var] = op.Val.text(sp)
 			where := fmt.Sprintf("session %d op %d (setq %s %s)", s, jx, op.Var, op.Val.source())
+			seen := map[string]bool{}
 			for k, pt := range st.Points {
+				h.Class("crash@"+pt.Name, 1)
+				if key := pt.Files.key(); seen[key] {
+					continue // the same directory content as at an earlier step of this operation
+				} else {
+					seen[key] = true
+				}
 				res.Evals++
 				res.NonTrivial = true // a death inside a rewrite of the configuration file
-				h.Class("crash@"+pt.Name, 1)
 				if d := loadsAs(pt.Files, pre, post); d != "" {
 					return h.Fail("%s: a death at step %d (%s) leaves a configuration with neither the old nor the new settings: %s; config.lisp: %q", where, k, pt.Name, d, pt.Files["config.lisp"])
 				}
